@@ -199,6 +199,16 @@ class Frame:
                     if isinstance(v, StructVal):
                         v = v if d.get("ref") else v.copy()
                     elif self.is_plain_aggregate(d) and not d.get("ref") and isinstance(v, tuple) and v[0] == "call" \
+                            and v[1] == "initlist":
+                        sv = StructVal(d["name"], (d.get("t") or "").replace("const ", "").strip())
+                        rec = self.F.records.get(sv.tname)
+                        for fl, val in zip(rec["fields"], v[2]):
+                            sv.fields[fl["name"]] = val
+                        for fl in rec["fields"][len(v[2]):]:
+                            if "init" in fl:
+                                sv.fields[fl["name"]] = self.e(fl["init"])
+                        v = sv
+                    elif self.is_plain_aggregate(d) and not d.get("ref") and isinstance(v, tuple) and v[0] == "call" \
                             and str(v[1]).startswith("construct:"):
                         sv = StructVal(d["name"], (d.get("t") or "").replace("const ", "").strip())
                         rec = self.F.records.get(sv.tname)
@@ -864,6 +874,8 @@ class Frame:
             args = [self.fz(self.e(a)) for a in args_n]
             if tgt[0] == "lambda":
                 return self.call_lambda(tgt, args)
+            if tgt[0] == "func" and tgt[1] in self.F.functions:
+                return self.inline_or_opaque(n, self.F.functions[tgt[1]], None, args)
             return ("unknown", "indirect call")
         if n.get("mg") in self.F.functions:
             args = [self.e(a) for a in args_n]
